@@ -315,6 +315,23 @@ class ExprWorld:
                     for t in st.targets:
                         if isinstance(t, ast.Name):
                             g.setdefault(t.id, Tag(t.id))
+        # module-level tables (operator groups, type tuples) are evaluated in source order, as at import time
+        for nm in ("BoolArray1D", "BoolArray2D", "IntArray1D", "IntArray2D"):
+            g.setdefault(nm, Tag(nm))
+        for mod in (self.expr_mod, self.cons_mod):
+            for st in mod.tree.body:
+                if isinstance(st, (ast.Assign, ast.AnnAssign)) and getattr(st, "value", None) is not None:
+                    if isinstance(st.value, ast.Call) and dotted(st.value.func) not in ("tuple", "list", "set", "frozenset", "dict"):
+                        continue
+                    tgts = st.targets if isinstance(st, ast.Assign) else [st.target]
+                    try:
+                        self.ev.steps = 0
+                        v = self.ev.eval(st.value, g)
+                    except (Undecided, Exception):
+                        continue
+                    for t in tgts:
+                        if isinstance(t, ast.Name):
+                            g[t.id] = v
         # `from .constraints import cond/then` inside expr.py methods is a no-op here: names are global
         # array classes are not modelled in the scalar world
         for nm in ("BoolArray1D", "BoolArray2D", "IntArray1D", "IntArray2D"):
